@@ -77,7 +77,7 @@ def phase_of(op, box_root=None):
         return "config-" + ("open" if k.startswith("open") else k)
     if base.startswith("Breadlog.lock"):
         return "lock-" + {"openr": "read-open", "openw": "open", "write": "write", "close": "close"}.get(k, k)
-    if "/tmp/" in p and base.startswith("breadlog-"):
+    if base.startswith("breadlog-") and (base.endswith(".tmp") or base.endswith(".tmp (deleted)")):
         return "tmp-" + {"openw": "create", "write": "write", "close": "close", "unlink": "unlink", "rename": "rename", "fsync": "fsync"}.get(k, k)
     if k == "opendir":
         return "discovery"
@@ -96,11 +96,27 @@ def phase_of(op, box_root=None):
     return "other-" + k
 
 
-def clean_reference(built, proj, check=False):
+def foreign_tmpdir(box):
+    """A TMPDIR on another filesystem than the sandbox (genuine EXDEV on rename), or None."""
+    other = "/var/tmp" if box.top.startswith("/dev/shm") else "/dev/shm"
+    if not os.path.isdir(other) or os.stat(other).st_dev == os.stat(box.top).st_dev:
+        return None
+    d = os.path.join(other, "vf-xdev-%d-%s" % (os.getpid(), os.path.basename(box.top)))
+    os.makedirs(d, exist_ok=True)
+    return d
+
+
+def clean_reference(built, proj, check=False, xdev=False):
     """Run once without injection; returns (ops, after_files, rec, expected_offsets per file)."""
+    import shutil
     with core.Box(tag="ref") as box:
         cfg = proj.materialise(box)
-        rec = core.run_breadlog(built, box, cfg, check=check, shim=True)
+        td = foreign_tmpdir(box) if xdev else None
+        try:
+            rec = core.run_breadlog(built, box, cfg, check=check, shim=True, tmpdir=td)
+        finally:
+            if td:
+                shutil.rmtree(td, ignore_errors=True)
         after = {rel: box.read(rel) for rel in proj.files}
         lock = core.read_lock(os.path.join(box.proj, "Breadlog.lock"))
         root = box.root
